@@ -3,7 +3,7 @@
    Model: C14_Model.v (ContentSequence of sr/value_types.py; state = list, name
    index `lut`, is_root, is_sr).  [run s ops] = state after the history [ops]. *)
 From Coq Require Import String ZArith List Bool Permutation.
-From HD Require Import Base.Val Base.PySlice C14_Model C14_Proofs C14_Proofs_Ext C14_Proofs_Slice C14_Proofs_Refine C14_Proofs_SliceNth C14_Proofs_Multi.
+From HD Require Import Base.Val Base.PySlice C14_Model C14_Proofs C14_Proofs_Ext C14_Proofs_Slice C14_Proofs_Refine C14_Proofs_SliceNth C14_Proofs_Multi C14_Proofs_SliceSet C14_Proofs_Read C14_Proofs_ReadX.
 Import ListNotations.
 Open Scope Z_scope.
 
@@ -598,3 +598,212 @@ Proof.
   eexists. split; [reflexivity|]. vm_compute. reflexivity.
 Qed.
 Print Assumptions C14_family_example.
+
+(* ======================= slice deletion and extended-slice assignment, element by element ======================= *)
+(* enumerate xs = combine (seq 0 (length xs)) xs;  py_range f l s = [f + k*s | k < range_len f l s];
+   in_py_range f l s i = existsb (Z.eqb i) (py_range f l s)   (C14_Proofs_SliceSet.v) *)
+(* del xs[a:b:c] = [x for i, x in enumerate(xs) if i not in range(f, l, s)], (f, l, s) = slice(a,b,c).indices(len(xs)) *)
+Theorem C14_slice_del_comprehension : forall start stop stp (xs : list item) f l s, stp <> 0 ->
+  slice_indices start stop stp (zlen xs) = (f, l, s) ->
+  slice_del f l s xs = map snd (filter (fun q => negb (in_py_range f l s (Z.of_nat (fst q)))) (enumerate xs)).
+Proof. exact slice_del_comprehension. Qed.
+Print Assumptions C14_slice_del_comprehension.
+
+(* xs[a:b:c] = vs (len(vs) = len(range(f,l,s))): the length is kept, xs[f + k*s] = vs[k] for every k - for
+   negative steps too -, and every position outside range(f, l, s) keeps its item *)
+Theorem C14_slice_set_nth : forall start stop stp (xs vs : list item) f l s d, stp <> 0 ->
+  slice_indices start stop stp (zlen xs) = (f, l, s) -> zlen vs = range_len f l s ->
+  let r := replace_sel (mask f l s (length xs)) xs (if s <? 0 then rev vs else vs) in
+  length r = length xs /\
+  (forall k, 0 <= k < range_len f l s -> nth (Z.to_nat (f + k * s)) r d = nth (Z.to_nat k) vs d) /\
+  (forall i, (i < length xs)%nat -> in_py_range f l s (Z.of_nat i) = false -> nth i r d = nth i xs d).
+Proof. exact slice_set_nth. Qed.
+Print Assumptions C14_slice_set_nth.
+
+(* the sequence after an ACCEPTED seq[a:b:c] = xs, in a state where index and list agree: simple slice -
+   list[:f] + xs + list[max(f,l):]; extended slice - len(xs) = len(range), same length, position f + k*s holds
+   xs[k], the rest is untouched *)
+Theorem C14_setslice_spec : forall s a b c xs f l st d,
+  (forall n, Permutation (lut s n) (filter (has n) (items s))) ->
+  snd (step s (SetSlice a b c xs)) = None ->
+  slice_indices a b (step_of c) (zlen (items s)) = (f, l, st) ->
+  let r := items (fst (step s (SetSlice a b c xs))) in
+  (st = 1 -> r = firstn (Z.to_nat f) (items s) ++ xs ++ skipn (Z.to_nat (Z.max f l)) (items s)) /\
+  (st <> 1 ->
+     zlen xs = range_len f l st /\ length r = length (items s) /\
+     (forall k, 0 <= k < range_len f l st -> nth (Z.to_nat (f + k * st)) r d = nth (Z.to_nat k) xs d) /\
+     (forall i, (i < length (items s))%nat -> in_py_range f l st (Z.of_nat i) = false ->
+                nth i r d = nth i (items s) d)).
+Proof. exact setslice_spec. Qed.
+Print Assumptions C14_setslice_spec.
+
+(* del seq[a:b:c] with step <> 0 is always accepted and leaves exactly the items at the positions outside range(f,l,s) *)
+Theorem C14_delslice_spec : forall s a b c f l st,
+  (forall n, Permutation (lut s n) (filter (has n) (items s))) -> step_of c <> 0 ->
+  slice_indices a b (step_of c) (zlen (items s)) = (f, l, st) ->
+  snd (step s (DelSlice a b c)) = None /\
+  items (fst (step s (DelSlice a b c))) =
+  map snd (filter (fun q => negb (in_py_range f l st (Z.of_nat (fst q)))) (enumerate (items s))).
+Proof. exact delslice_spec. Qed.
+Print Assumptions C14_delslice_spec.
+
+(* non-vacuity: seq[4:0:-2] = [x; y] writes x at 4 and y at 2; del seq[-1:0:-2] removes positions 4 and 2 *)
+Example C14_slice_set_del_example :
+  let it := fun v => Item true 0 1 false false v in
+  exists s0, init (map it [0; 1; 2; 3; 4]) false true = Ok s0 /\
+  slice_indices (Some 4) (Some 0) (-2) 5 = (4, 0, -2) /\ py_range 4 0 (-2) = [4; 2] /\
+  snd (step s0 (SetSlice (Some 4) (Some 0) (Some (-2)) [it 8; it 9])) = None /\
+  map ipay (items (fst (step s0 (SetSlice (Some 4) (Some 0) (Some (-2)) [it 8; it 9])))) = [0; 1; 9; 3; 8] /\
+  snd (step s0 (SetSlice (Some 4) (Some 0) (Some (-2)) [it 8])) = Some EVALUE /\
+  map ipay (items (fst (step s0 (DelSlice (Some (-1)) (Some 0) (Some (-2)))))) = [0; 1; 3].
+Proof. eexists. split; [reflexivity|]. vm_compute. repeat split; reflexivity. Qed.
+Print Assumptions C14_slice_set_del_example.
+
+(* ======================= reading the sequence ======================= *)
+(* seq[i] is the item at the normalised position; IndexError iff out of range *)
+Theorem C14_getitem_int_spec : forall s i,
+  (- zlen (items s) <= i < zlen (items s) ->
+   exists v, getitem_int s i = Ok v /\
+             nth_error (items s) (Z.to_nat (if i <? 0 then i + zlen (items s) else i)) = Some v) /\
+  (~ (- zlen (items s) <= i < zlen (items s)) -> getitem_int s i = Err EINDEX).
+Proof. exact getitem_int_spec. Qed.
+Print Assumptions C14_getitem_int_spec.
+
+(* seq[a:b:c] = [seq[f + k*s] for k in range(len(range(f, l, s)))]; ValueError iff the step is 0 *)
+Theorem C14_getitem_slice_spec : forall s a b c f l st d,
+  slice_indices a b (step_of c) (zlen (items s)) = (f, l, st) ->
+  getitem_slice s a b c =
+  if step_of c =? 0 then Err EVALUE
+  else Ok (map (fun k => nth (Z.to_nat (f + Z.of_nat k * st)) (items s) d) (seq 0 (Z.to_nat (range_len f l st)))).
+Proof. exact getitem_slice_spec. Qed.
+Print Assumptions C14_getitem_slice_spec.
+
+(* reversed(seq) - a loop over seq[i] - yields the list backwards and never raises *)
+Theorem C14_reversed_spec : forall s, reversed s = map Ok (rev (items s)).
+Proof. exact reversed_spec. Qed.
+Print Assumptions C14_reversed_spec.
+
+(* ======================= from_sequence over ALL fifteen value types ======================= *)
+(* accepted IFF the flags are consistent, every dataset is well-formed for ITS value type (is a Dataset, one of
+   the 15 value types, all required attributes, a name unless the type's name is optional, well-formed children,
+   a relationship type unless root / non-SR) and its item passes __init__'s rule *)
+Theorem C14_from_sequence_x_ok_iff : forall ds root sr, (exists s, from_sequence_x ds root sr = Ok s) <->
+  root && negb sr = false /\
+  Forall (fun d => d_isds d = true /\ 1 <= d_vt d <= 15 /\ d_hasval d = true /\
+                   (d_hasname d = true \/ 10 <= d_vt d <= 15) /\
+                   (d_kids d = 0 \/ d_kids d = 1) /\ (root = false -> sr = true -> d_rel d <> 0)) ds /\
+  Forall (fun d => init_check root sr (to_item_x d) = None) ds.
+Proof. exact from_sequence_x_ok_iff. Qed.
+Print Assumptions C14_from_sequence_x_ok_iff.
+
+(* the error is that of the first failing dataset, else __init__'s *)
+Theorem C14_from_sequence_x_error : forall ds root sr e, from_sequence_x ds root sr = Err e ->
+  (exists pre d post, ds = pre ++ d :: post /\ Forall (WellFormedX root sr) pre /\ ds_check_x root sr d = Some e) \/
+  (Forall (WellFormedX root sr) ds /\ init (map to_item_x ds) root sr = Err e).
+Proof. exact from_sequence_x_error. Qed.
+Print Assumptions C14_from_sequence_x_error.
+
+Theorem C14_dataset_x_error_class : forall root sr d e, ds_check_x root sr d = Some e ->
+  (e = ETYPE /\ d_isds d = false) \/ (e = EVALUE /\ d_isds d = true /\ d_vt d <> 0) \/ (e = EATTR /\ d_isds d = true).
+Proof. exact ds_check_x_error. Qed.
+Print Assumptions C14_dataset_x_error_class.
+
+(* _check_dataset's rule on this entry path, whatever the value type *)
+Theorem C14_check_dataset_x_rel_rule : forall root sr d,
+  d_isds d = true -> 1 <= d_vt d <= 15 -> d_rel d = 0 -> root = false -> sr = true ->
+  ds_check_x root sr d = Some EATTR.
+Proof. exact check_dataset_x_rel_rule. Qed.
+Print Assumptions C14_check_dataset_x_rel_rule.
+
+(* the TEXT / CONTAINER-only from_sequence of the earlier theorems is the restriction of this one *)
+Theorem C14_from_sequence_x_conservative : forall ds root sr, Forall (fun d => ~ (3 <= d_vt d <= 15)) ds ->
+  from_sequence_x ds root sr = from_sequence ds root sr.
+Proof. exact from_sequence_x_conservative. Qed.
+Print Assumptions C14_from_sequence_x_conservative.
+
+(* the name index right after from_sequence: every dataset is indexed once under its own name, or under the
+   default name (only possible for the six optional-name value types) when it brings none *)
+Theorem C14_from_sequence_x_names : forall ds root sr s n, from_sequence_x ds root sr = Ok s ->
+  Permutation (lut s n) (filter (has n) (map to_item_x ds)) /\
+  forall d, In d ds -> iname (to_item_x d) = (if d_hasname d then d_name d else DEFAULT_NAME) /\
+                       (d_hasname d = false -> 10 <= d_vt d <= 15).
+Proof. exact from_sequence_x_names. Qed.
+Print Assumptions C14_from_sequence_x_names.
+
+(* the whole property sentence after ANY history that starts from from_sequence over any value types *)
+Theorem C14_history_all_x : forall ds root sr s0 ops, from_sequence_x ds root sr = Ok s0 ->
+  let t := xrun s0 ops in
+  (forall n, Permutation (lut t n) (filter (has n) (items t))) /\
+  (forall n, exists r, find t n = Ok r /\ Permutation r (filter (has n) (items t)) /\
+     forall x, count_occ item_eq_dec r x = if has n x then count_occ item_eq_dec (items t) x else 0%nat) /\
+  (forall x, (forall k, index t x = Ok k ->
+                0 <= k < zlen (items t) /\ nth_error (items t) (Z.to_nat k) = Some x /\
+                forall j, 0 <= j < k -> nth_error (items t) (Z.to_nat j) <> Some x) /\
+             ((exists k, index t x = Ok k) <-> is_item x = true /\ In x (items t)) /\
+             (is_item x = true -> (contains t x = Ok true <-> In x (items t)) /\
+                                  (contains t x = Ok false <-> ~ In x (items t))) /\
+             count t x = Z.of_nat (count_occ item_eq_dec (items t) x)) /\
+  get_nodes t = Ok (filter inode (items t)) /\
+  Forall (fun x => is_item x = true /\ (is_sr t = true -> (irel x =? 0) = is_root t)) (items t).
+Proof. exact xhistory_summary_x. Qed.
+Print Assumptions C14_history_all_x.
+
+(* non-vacuity: a CODE item, two IMAGE items without a name (both indexed under the default name 18), a NUM item;
+   a PNAME dataset without a name and a SCOORD dataset lacking a required attribute are refused *)
+Example C14_from_sequence_x_example :
+  let code := DSet true 3 true true 0 1 0 30 in let img := DSet true 11 true false 0 2 0 110 in
+  let img2 := DSet true 11 true false 7 1 1 111 in let num := DSet true 4 true true 1 1 0 40 in
+  (exists s0, from_sequence_x [code; img; num; img2] false true = Ok s0 /\
+     find s0 DEFAULT_NAME = Ok [to_item_x img; to_item_x img2] /\ find s0 7 = Ok [] /\
+     let t := xrun s0 [Pop 1; Reverse] in
+     map ipay (items t) = [111; 40; 30] /\ find t DEFAULT_NAME = Ok [to_item_x img2] /\
+     index t (to_item_x img) = Err EVALUE /\ index t (to_item_x img2) = Ok 0 /\
+     getitem_slice t None None (Some (-2)) = Ok [to_item_x code; to_item_x img2] /\
+     reversed t = [Ok (to_item_x code); Ok (to_item_x num); Ok (to_item_x img2)]) /\
+  from_sequence_x [DSet true 5 true false 0 1 0 50] false true = Err EATTR /\
+  from_sequence_x [DSet true 12 false true 0 1 0 120] false true = Err EATTR /\
+  from_sequence_x [DSet true 16 true true 0 1 0 0] false true = Err EVALUE /\
+  from_sequence_x [code] true true = Err EATTR /\
+  from_sequence_x [DSet true 3 true true 0 0 0 30] true true = Err ETYPE.
+Proof. split; [eexists; split; [reflexivity|]; vm_compute; repeat split; reflexivity|vm_compute; repeat split; reflexivity]. Qed.
+Print Assumptions C14_from_sequence_x_example.
+
+(* from_sequence over all value types IS __init__ on the converted datasets (every theorem about construct applies) *)
+Theorem C14_from_sequence_x_is_init : forall ds root sr s, from_sequence_x ds root sr = Ok s ->
+  construct (FromList (map to_item_x ds)) root sr = Ok s /\ Forall (WellFormedX root sr) ds.
+Proof. exact from_sequence_x_ok. Qed.
+Print Assumptions C14_from_sequence_x_is_init.
+
+(* refinement to the index-free plain-list reference, for histories that start from from_sequence over any value types *)
+Theorem C14_refinement_all_x : forall ds root sr s0 ops, from_sequence_x ds root sr = Ok s0 ->
+  let t := xrun s0 ops in
+  let L := fold_left (xref_step root sr) ops (map to_item_x ds) in
+  items t = L /\
+  (forall n, exists r, find t n = Ok r /\ Permutation r (filter (has n) L)) /\
+  (forall x, index t x = if negb (is_item x) then Err ETYPE
+                         else match pos_of x L 0 with Some k => Ok k | None => Err EVALUE end) /\
+  (forall x, is_item x = true -> contains t x = Ok (existsb (fun y => item_eqb y x) L)) /\
+  (forall x, count t x = Z.of_nat (count_occ item_eq_dec L x)) /\
+  get_nodes t = Ok (filter inode L) /\
+  is_root t = root /\ is_sr t = sr.
+Proof. exact refinement_all_x. Qed.
+Print Assumptions C14_refinement_all_x.
+
+(* every member of every family grown from such a sequence satisfies the whole property sentence *)
+Theorem C14_family_all_x : forall ds root sr s0 ops, from_sequence_x ds root sr = Ok s0 ->
+  Forall (fun t =>
+    (forall n, Permutation (lut t n) (filter (has n) (items t))) /\
+    (forall n, exists r, find t n = Ok r /\ Permutation r (filter (has n) (items t)) /\
+       forall x, count_occ item_eq_dec r x = if has n x then count_occ item_eq_dec (items t) x else 0%nat) /\
+    (forall x, (forall k, index t x = Ok k ->
+                  0 <= k < zlen (items t) /\ nth_error (items t) (Z.to_nat k) = Some x /\
+                  forall j, 0 <= j < k -> nth_error (items t) (Z.to_nat j) <> Some x) /\
+               ((exists k, index t x = Ok k) <-> is_item x = true /\ In x (items t)) /\
+               (is_item x = true -> (contains t x = Ok true <-> In x (items t)) /\
+                                    (contains t x = Ok false <-> ~ In x (items t))) /\
+               count t x = Z.of_nat (count_occ item_eq_dec (items t) x)) /\
+    get_nodes t = Ok (filter inode (items t)) /\
+    Forall (fun x => is_item x = true /\ (is_sr t = true -> (irel x =? 0) = is_root t)) (items t))
+  (mrun [s0] ops).
+Proof. exact family_summary_x. Qed.
+Print Assumptions C14_family_all_x.
